@@ -18,7 +18,23 @@ def set_large_sizes(flag=True):
     _os.environ['VMON_LARGE'] = '1' if flag else '0'
 
 
+SCALE_VARIES = {'on': _os.environ.get('VMON_SCALE_VARIES') == '1'}
+
+
+def set_cell_scale_varies(flag=True):
+    """Every eighth dataset is a 100 m or 5 m model expressed in degrees (cells 1e-3 / 5e-5 across)."""
+    SCALE_VARIES['on'] = bool(flag)
+    _os.environ['VMON_SCALE_VARIES'] = '1' if flag else '0'
+
+
 def make(rng, convention=None, **kw):
+    if SCALE_VARIES['on'] and rng.random() < 0.125:
+        with grids.cell_scale(float(pick(rng, [1e-3, 5e-5]))):
+            return _make(rng, convention, **kw)
+    return _make(rng, convention, **kw)
+
+
+def _make(rng, convention=None, **kw):
     convention = convention or pick(rng, CONVENTIONS)
     if SIZE_POLICY['large'] and 'maxn' not in kw and rng.random() < 1 / 6:
         kw = dict(kw, maxn=10 if convention == 'ugrid' else 14)
